@@ -4,6 +4,7 @@ package c11
 import (
 	"encoding/json"
 	"fmt"
+	"regexp"
 	"sort"
 	"strings"
 	"testing"
@@ -179,7 +180,25 @@ func runPrint(c Case) *harn.Failure {
 	return nil
 }
 
-var propPrint = harn.Register(&harn.Prop[Case]{Name: "TestPrintReparse", Run: runPrint})
+var trailingZeroLiteral = regexp.MustCompile(`[0-9]\.[0-9]*0([^0-9]|$)`)
+
+// scaleFinding recognises the listed finding: the printer drops trailing fractional zeros of number literals and
+// fractional powers are sensitive to the operand's scale. Only value differences are covered (never parse failures).
+func scaleFinding(src string, f *harn.Failure) string {
+	if f.Panic != nil {
+		return ""
+	}
+	switch f.Clause {
+	case "same-value", "same-template-output", "identity-same-output", "rename-same-output":
+		if strings.Contains(src, "^") && trailingZeroLiteral.MatchString(src) {
+			return "C11-number-literal-scale"
+		}
+	}
+	return ""
+}
+
+var propPrint = harn.Register(&harn.Prop[Case]{Name: "TestPrintReparse", Run: runPrint,
+	Classify: func(c Case, f *harn.Failure) string { return scaleFinding(c.Expr, f) }})
 
 func drawCase(t *rapid.T, nctx int, webhook bool) Case {
 	ctxs := make([]gen.V, nctx)
@@ -321,7 +340,8 @@ func runRewrite(c RewriteCase) *harn.Failure {
 	return nil
 }
 
-var propRewrite = harn.Register(&harn.Prop[RewriteCase]{Name: "TestTemplateRewrite", Run: runRewrite})
+var propRewrite = harn.Register(&harn.Prop[RewriteCase]{Name: "TestTemplateRewrite", Run: runRewrite,
+	Classify: func(c RewriteCase, f *harn.Failure) string { return scaleFinding(c.Template, f) }})
 
 func TestTemplateRewrite(t *testing.T) {
 	rapid.Check(t, func(rt *rapid.T) {
